@@ -779,3 +779,43 @@ def derivative_sign(r, atom, ranges):
     dn, dd = poly_derivative(r.n, atom), poly_derivative(r.d, atom)
     num = dn * r.d - r.n * dd
     return rat_sign(Rat(num), ranges)
+
+
+
+def piecewise_mismatch(leaves, pieces, var, extra=()):
+    """compare an evaluated piecewise function of `var` with a specified one.
+    leaves: [(constraints, value Rat)] - the conditions each path of the evaluation met and the value it produced;
+    pieces: [(lo, hi, value Rat)] - the specification on lo <= var <= hi (None = unbounded); adjacent pieces agree at their common end.
+    A leaf must give the piece's value wherever the two overlap in more than a point (identical rational functions), and at a common
+    end point when that is all they share (values compared after substituting the point).
+    -> None if everything matches, else a text describing the first mismatch"""
+    v = Rat.atom(var) if not isinstance(var, Rat) else var
+    for cons, val in leaves:
+        cons = list(cons) + list(extra)
+        if not feasible(cons):
+            continue
+        hit = False
+        for lo, hi, want in pieces:
+            inside = []
+            if lo is not None:
+                inside.append((v - lo, ">"))
+            if hi is not None:
+                inside.append((v - hi, "<"))
+            if feasible(cons + inside):
+                hit = True
+                if not (val == want):
+                    return f"on {_show(lo)} < i < {_show(hi)} the value is {val}, expected {want}"
+                continue
+            for pt in (lo, hi):
+                if pt is not None and feasible(cons + [(v - pt, "==")]):
+                    hit = True
+                    a, b = val.subst({var: pt}), want.subst({var: pt})
+                    if not (a == b):
+                        return f"at i = {pt} the value is {a}, expected {b}"
+        if not hit:
+            return f"a path yields {val} under conditions that match no piece of the specification"
+    return None
+
+
+def _show(x):
+    return "-inf/+inf" if x is None else str(x)
